@@ -7,6 +7,7 @@
 //!
 //! Exit code 0 when the run completed (failures are data, not errors), 3 on an internal error.
 
+mod assumptions;
 mod common;
 mod gen;
 mod json;
@@ -190,6 +191,10 @@ fn main() {
         ("failure_count".into(), Json::Num(total_failures as f64)),
         ("failures".into(), Json::Arr(failures.iter().map(failure_json).collect())),
         ("samples".into(), Json::Arr(samples)),
+        ("assumptions".into(), {
+            let g = assumptions::SEEN.lock().map(|g| (g.0, g.1.clone())).unwrap_or((0, vec!["lock poisoned".into()]));
+            Json::Obj(vec![("modules_checked".into(), Json::Num(g.0 as f64)), ("violations".into(), Json::Arr(g.1.into_iter().map(Json::Str).collect()))])
+        }),
     ]);
     emit(&report, out.as_deref());
 }
